@@ -810,6 +810,11 @@ struct RawCase {
 }
 
 pub fn run(mode: Mode, ctx: &mut Ctx) -> Vec<Violation> {
+    if mode == Mode::C05 && ctx.shard % 2 == 1 {
+        crate::srvlab::install_logger(log::LevelFilter::Trace);
+        *crate::srvlab::LOGGER.keep.lock().unwrap() = false;
+        ctx.class("logging-on-at-trace");
+    }
     let mut out = vec![];
     let t = ctx.tier;
 
@@ -866,6 +871,31 @@ pub fn run(mode: Mode, ctx: &mut Ctx) -> Vec<Violation> {
                 ctx.sample("exh-words", 5, &s);
             }
         }
+    }
+
+    // (b1) byte-granular lengths: every word string of up to 4 words followed by 1..=3 further bytes (two fills), and
+    // cut 1..=3 bytes short — whole-word generators never produce a length that is not a multiple of four
+    {
+        let words = exh_total(4);
+        let v = run_enum(ctx, "exh-bytes", words * 12, |i| {
+            let mut b = exh_string(i / 12);
+            let k = (i % 12) as usize;
+            let n = k % 3 + 1;
+            match k / 3 {
+                0 => b.extend(std::iter::repeat(0u8).take(n)),
+                1 => b.extend(std::iter::repeat(0xaau8).take(n)),
+                2 => b.extend([1u8, 0, 0].iter().take(n)),
+                _ => {
+                    let keep = b.len().saturating_sub(n);
+                    b.truncate(keep);
+                }
+            }
+            RawCase { bytes: Hex(b) }
+        }, |ctx, c| check(mode, ctx, &c.bytes.0, "exh-bytes"));
+        if v.is_empty() && ctx.shard == 0 {
+            ctx.stats.exhaustive_spaces.push(format!("all {} word strings of length 0..=4, each with 1..=3 extra bytes (three fills) and with 1..=3 bytes cut off", words));
+        }
+        out.extend(v);
     }
 
     // (b2) exhaustive near-tag words: every known tag with one byte replaced by every value
@@ -937,7 +967,7 @@ pub fn replay(mode: Mode, ctx: &mut Ctx, sub: &str, case: &Value) -> Res {
         "sized-grid" => replay_case::<SizedCase, _>(ctx, case, |ctx, c| sized_check(mode, ctx, c)),
         "api" | "api-large" => replay_case::<ApiMsg, _>(ctx, case, |ctx, c| api_roundtrip(ctx, c)),
         "api-sequences" => replay_case::<Vec<ApiOp>, _>(ctx, case, |ctx, c| api_sequence(ctx, c)),
-        "exh-words" | "near-tags" | "random" | "count-arith" | "raw" => replay_case::<RawCase, _>(ctx, case, |ctx, c| check(mode, ctx, &c.bytes.0, "replay")),
+        "exh-words" | "exh-bytes" | "near-tags" | "random" | "count-arith" | "raw" => replay_case::<RawCase, _>(ctx, case, |ctx, c| check(mode, ctx, &c.bytes.0, "replay")),
         "mutants" | "mutants-large" => replay_case::<MutCase, _>(ctx, case, |ctx, c| {
             let base = c.base.to_ref().encode();
             let x = apply_muts(&base, c.base.fields.len(), &c.muts);
